@@ -66,6 +66,10 @@ def cases(tier, seed):
     # the present/future boundary given as datetime / string / numpy datetime64 instead of a pandas Timestamp
     for form in ('datetime', 'str', 'datetime64'):
         out.append(('boundary_given_as_%s' % form, dict(kind='slp', shape='contract_storage', kw=dict(T=3), boundary=1, S=1, sf_form=form)))
+    out.append(('present_fixed_by_list_of_booleans', dict(kind='slp', shape='two_node', kw=dict(T=4), boundary=3, S=1, fix_form='list')))
+    out.append(('present_fixed_by_date', dict(kind='slp', shape='contract_storage', kw=dict(T=4), boundary=2, S=1, fix_form='date')))
+    out.append(('boundary_in_utc_on_cet_grid', dict(kind='slp', shape='contract_storage', kw=dict(T=3, gridv='hour_cet_dst'), boundary=1, S=1, sf_form='zone:UTC')))
+    out.append(('boundary_in_cet_on_utc_grid', dict(kind='slp', shape='two_node', kw=dict(T=3, gridv='hour_d_utc'), boundary=2, S=1, sf_form='zone:CET')))
     for cid, shape, kw, S in (('robust_contract_storage', 'contract_storage', dict(T=2), 2), ('robust_two_node', 'two_node', dict(T=2), 1),
                               ('robust_mip_orderbook_full_exec', 'orderbook', dict(T=2, full_exec=True, orders=((0, 2, 2.0), (1, 2, -1.5))), 1),
                               ('robust_mip_storage_no_simult', 'contract_storage', dict(T=2, storage_kw=dict(no_simult_in_out=True)), 1)):
@@ -212,6 +216,8 @@ def scenario(D, shape, kw, boundary, S, sf_form=None):
         start_future = str(pd.Timestamp(start_future))
     elif sf_form == 'datetime64':
         start_future = np.datetime64(pd.Timestamp(start_future))
+    elif sf_form and sf_form.startswith('zone:'):
+        start_future = pd.Timestamp(start_future).tz_convert(sf_form[5:]).to_pydatetime()      # the same instant written in another time zone
     slp = eao.stoch_lin_prog.make_slp(op_in, sh3.portf, sh3.tg, start_future, [dict(s) for s in samples])
     scenario.last_shape = sh3          # the portfolio object the SLP was built from (for output extraction, C04)
     return sh, op_base, scen_ops, slp
@@ -262,7 +268,7 @@ def blocks(slp_lp, base_lp, T, boundary):
     return maps, present, S
 
 
-def run_slp(rec, seed, shape, kw, boundary, S, sf_form=None):
+def run_slp(rec, seed, shape, kw, boundary, S, sf_form=None, fix_form=None):
     def build(D):
         r = scenario(D, shape, kw, boundary, S, sf_form)
         # the lower bound of the property fixes the present to a single-scenario solution (fix_time_window up to the boundary): the variables
@@ -271,6 +277,10 @@ def run_slp(rec, seed, shape, kw, boundary, S, sf_form=None):
         n4 = len(r[1].c)
         xbar = common.sym_x(n4, 'xbar')
         mask = np.array([t < boundary for t in range(sh4.tg.T)])
+        if fix_form == 'list':
+            mask = [bool(v_) for v_ in mask]          # the present given as a plain python list of booleans
+        elif fix_form == 'date':
+            mask = (pd.Timestamp(shapes.tstep(sh4.tg, boundary)) - pd.Timedelta(minutes=1)).to_pydatetime()
         opf = sh4.portf.setup_optim_problem(sh4.prices, sh4.tg, fix_time_window={'I': mask, 'x': xbar}) if boundary > 0 else None
         return r + (opf, xbar)
     res = lift.explore_build(build, level='A')
@@ -384,6 +394,10 @@ def observe(case, kwargs, env, rq):
         n4 = len(op_base.c)
         xbar = np.array([float(env.get('xbar%d' % k, 0.25 + k)) for k in range(n4)])
         mask = np.array([t < kw['boundary'] for t in range(sh4.tg.T)])
+        if kw.get('fix_form') == 'list':
+            mask = [bool(v_) for v_ in mask]
+        elif kw.get('fix_form') == 'date':
+            mask = (pd.Timestamp(shapes.tstep(sh4.tg, kw['boundary'])) - pd.Timedelta(minutes=1)).to_pydatetime()
         opf = sh4.portf.setup_optim_problem(sh4.prices, sh4.tg, fix_time_window={'I': mask, 'x': xbar.copy()})
         o['fix_present'] = dict(i=i, l=float(opf.l[i]), u=float(opf.u[i]), xbar=float(xbar[i]), base_l=float(op_base.l[i]), base_u=float(op_base.u[i]))
         return o
